@@ -5,7 +5,9 @@ correspondence: real Parser().parse vs the model's lexer+grammar on (a) renderin
                 (spacing, tabs, line breaks LF/CRLF, comments, trailing commas, single/double/no quotes), (b) single-character mutations
                 of those, (c) random token soups over all character classes: whole tree incl. line numbers, or the error class
 oracles:        parse(render(program, layout)) is exactly the abstract program (names, values with their kinds, order, nesting, tuples),
-                for every layout; malformed text never raises anything but SyntaxError
+                for every layout; malformed text never raises anything but SyntaxError; numbers of equal value and different kind (1 / 1.0 / 1.00,
+                0 / 0.0 / -0.0 ...) written next to each other on one line - lists, nested lists, tuples, separate arguments, two commands - are read
+                as the kind and sign they were written as (`render.kind_mix_asts`, compared by `parsing.exact_parse` / `exact_load`)
 known findings: unquoted strings made of several tokens lose their blanks / are re-rendered (F10): re-run, reported as KNOWN-FINDING
 """
 import re
@@ -128,6 +130,16 @@ def run(ctx):
             srcs.append(parsing.mutate(rng, src)); expected.append(None); kinds.append("mutation")
     for h in HISTORY:
         srcs.append(h); expected.append(None); kinds.append("history")
+    # numbers of equal value and different kind (1 / 1.0 / 1.00, 0 / 0.0 / -0.0, 2 / 2.0 ...) and texts that look like them, next to each other on ONE line - in a
+    # list, nested lists, a tuple, separate arguments, two commands - and over several lines: each is read as the kind (and sign) it was written as
+    exacts = {}
+    for ast in render.kind_mix_asts(rng):
+        for k, (wild, one_line) in enumerate(((False, True), (True, True), (True, False))):
+            if k == 2 and rng.random() < 0.5:
+                continue
+            src, exp = render.render(ast, rng, "\n", wild=wild, one_line=one_line)
+            srcs.append(src); expected.append(exp); kinds.append("kinds-side-by-side")
+            exacts[src] = render.exact(ast)
     for i in range(ctx.budget(150, 8000)):
         srcs.append(parsing.rand_tokens(rng)); expected.append(None); kinds.append("token-soup")
         srcs.append(parsing.rand_prog(rng)); expected.append(None); kinds.append("loose-program")
@@ -161,6 +173,12 @@ def run(ctx):
             if got != want:
                 ctx.fail("Program.from_source hands the commands something else than what the text says (%s)" % (
                     got if not got.startswith("ok") else "values / names / lines differ"), {"source": src, "parsed": want[:800], "loaded": got[:800]})
+        if src in exacts:
+            ctx.count("kinds_side_by_side_texts")
+            for how, got in (("parsed", parsing.exact_parse(src)), ("parsed by a Parser that has read other texts", parsing.exact_parse(src, parser=veteran)), ("handed to the commands by Program.from_source", parsing.exact_load(src))):
+                if got != exacts[src]:
+                    ctx.fail("numbers of equal value written as different kinds next to each other are not %s as the kinds (and signs) that were written" % how, {"source": src, "written": exacts[src], how.split(" ")[0]: got})
+                    break
         if exp is not None:
             if real != exp:
                 ctx.fail("a well-formed rendering does not parse to the program that was written (%s)" % (
